@@ -22,6 +22,7 @@ import (
 type gbInst struct {
 	gb  *gameboy.Gameboy
 	ser *bytes.Buffer
+	win *glfw.Window // the stub window of this instance's display (nil without video)
 }
 
 var gbs = map[int]*gbInst{}
@@ -33,7 +34,9 @@ func gbNew(idx int, path string, ser, aud, vid bool) {
 		inst.ser = &bytes.Buffer{}
 		cfg.SerialWriter = inst.ser
 	}
+	glfw.Current = nil
 	inst.gb = gameboy.New(cfg)
+	inst.win = glfw.Current
 	gbs[idx] = inst
 }
 
@@ -152,6 +155,11 @@ func init() {
 	})
 	register("gb.btn", func(a []string) {
 		gbs[ai(a, 1)].gb.VController().ButtonAction(controller.Button(ai(a, 2)), ab(a, 3))
+	})
+	// gb.key I KEYCODE ACTION: a key event on the instance's window (GLFW key code; 0 release, 1 press, 2 repeat), delivered
+	// through the callback that gameboy.New installed (Controller.ButtonAction + CPU.OnInput); no window: nothing happens
+	register("gb.key", func(a []string) {
+		gbs[ai(a, 1)].win.Fire(glfw.Key(ai(a, 2)), glfw.Action(ai(a, 3)))
 	})
 	register("gb.set", func(a []string) {
 		gbs[ai(a, 1)].gb.VCPU().VSetRegs(cpu.VRegs{A: uint8(ai(a, 2)), B: uint8(ai(a, 3)), C: uint8(ai(a, 4)), D: uint8(ai(a, 5)),
